@@ -76,6 +76,8 @@ package system
 //@   ensures S1: err == nil ==> ghost.autoconf == setAutoconfOf(old(ghost.autoconf), iface, enable)
 //@   ensures S2: err != nil ==> ghost.autoconf == old(ghost.autoconf)
 //@ iface system.State.IPv6Forwarding(self, iface) (v, err)
+//@   assigns ghost.fwdVal, ghost.fwdName, ghost.fwdFresh
+//@   ensures F1: err == nil ==> ghost.fwdVal == v && ghost.fwdName == iface && ghost.fwdFresh
 
 //@ lib (*github.com/mdlayher/ndp.Conn).Close(c) (err)
 //@   assigns ghost.openConns
